@@ -889,6 +889,12 @@ namespace fixedmath
       }
     //normalize the range to phi/2
     x = detail::tan_range(x);
+    //tan_range leaves phi/2 .. phi as is, fold it with tan(phi-x) = -tan(x), the series below is valid for 0 .. phi/2 only
+    if( x > fixpidiv2.v )
+      {
+      x = phi.v - x;
+      sign_ = !sign_;
+      }
     
     if( fixed_likely( x != fixpidiv2.v ) )
       {
